@@ -1,6 +1,7 @@
 (* C13 - build takes each cart section from exactly the source the arguments name.
    Property theorems only; proofs live in Proofs/BuildProofs.v. *)
-From PV Require Import Base.Prelude Spec.BuildSpec Model.Build Model.BuildInst Instances.HoldsC13 Proofs.BuildProofs.
+From PV Require Import Base.Prelude Spec.BuildSpec Model.Build Model.BuildInst Instances.HoldsC13 Proofs.BuildProofs
+  Generated.T_build_do.
 
 (* For EVERY command line (any of the 4^6 x ... source/empty assignments, any file names - the
    configuration space is finite only in its shape, file names are arbitrary byte strings), every
@@ -57,10 +58,11 @@ Theorem C13_model_holds : forall (A : Type) (eqb : A -> A -> bool),
 Proof. exact @model_holds. Qed.
 Print Assumptions C13_model_holds.
 
-(* observation O1 (outside the statement): `build --lua-format` can never write *)
+(* observation O1 (outside the statement): `build --lua-format` cannot write while the Namespace lacks an
+   attribute that branch reads (today `indentwidth`: the regenerated destinations of `build` do not have it) *)
 Theorem C13_O1_lua_format_never_writes : forall (A : Type) (w : world A) (ns : namespace),
   truthy (getattr_d ns "lua_format"%bs (VBool false)) = true ->
-  ns_get ns "indentwidth"%bs = None ->
+  (exists a, In a do_build_format_attrs /\ ns_get ns a = None) ->
   not_wrote (do_build_now w ns).
 Proof. exact @build_lua_format_never_writes. Qed.
 Print Assumptions C13_O1_lua_format_never_writes.
